@@ -139,9 +139,15 @@ static double f_noderiv(int n, const double *x, void *data_)
 static double f_direct(int n, const double *x, int *undefined, void *data_)
 {
     nlopt_opt data = (nlopt_opt) data_;
-    double *work = (double *) data->work;
+    double *xc = (double *) data->work;    /* n entries: x inside the bounds */
+    double *work = xc + n;      /* results of the constraint functions */
     double f;
     unsigned i, j;
+    /* DIRECT unscales its samples as (c + l/(u-l)) * (u-l), which can round
+       an ulp past a bound for boxes far from the origin */
+    for (i = 0; i < (unsigned) n; ++i)
+        xc[i] = x[i] < data->lb[i] ? data->lb[i] : (x[i] > data->ub[i] ? data->ub[i] : x[i]);
+    x = xc;
     f = data->f((unsigned) n, x, NULL, data->f_data);
     ++data->numevals;
     *undefined = nlopt_isnan(f) || nlopt_isinf(f);
@@ -603,7 +609,7 @@ static nlopt_result nlopt_optimize_(nlopt_opt opt, double *x, double *minf)
             direct_return_code dret;
             if (!finite_domain(n, lb, ub))
                 RETURN_ERR(NLOPT_INVALID_ARGS, opt, "finite domain required for global algorithm");
-            opt->work = malloc(sizeof(double) * nlopt_max_constraint_dim(opt->m, opt->fc));
+            opt->work = malloc(sizeof(double) * (n + nlopt_max_constraint_dim(opt->m, opt->fc)));
             if (!opt->work)
                 return NLOPT_OUT_OF_MEMORY;
             dret = direct_optimize(f_direct, opt, ni, lb, ub, x, minf,
@@ -615,6 +621,8 @@ static nlopt_result nlopt_optimize_(nlopt_opt opt, double *x, double *minf)
                                    NULL, algorithm == NLOPT_GN_ORIG_DIRECT ? DIRECT_ORIGINAL : DIRECT_GABLONSKY);
             free(opt->work);
             opt->work = NULL;
+            for (i = 0; i < n; ++i)     /* the same guard as in f_direct: the point that was evaluated */
+                x[i] = x[i] < lb[i] ? lb[i] : (x[i] > ub[i] ? ub[i] : x[i]);
             switch (dret) {
             case DIRECT_INVALID_BOUNDS:
                 RETURN_ERR(NLOPT_INVALID_ARGS, opt, "invalid bounds for DIRECT");
